@@ -37,18 +37,18 @@ theorem C10_fresh (s : G) (w : Uid) (roots sel : List Uid) (h : selOf s roots = 
 /-- whatever the outcome, the state after the call satisfies the full invariant: well-formed graph, truthful owners,
     unique ids, bounded -/
 theorem C10_result_inv (s : G) (w : Uid) (roots : List Uid) (ha : CloneArgs s w roots) :
-    Inv (cloneSel s w roots).1 := by
-  sorry
+    Inv (cloneSel s w roots).1 :=
+  cloneSel_Inv s w roots ha.inv ha.member
 
 /-- the source WBS is left unchanged: every field of every task that belongs to `w` (and of `w`'s root) -/
 theorem C10_source_frame (s : G) (w : Uid) (roots : List Uid) (ha : CloneArgs s w roots) :
-    sourceFrameB s (cloneSel s w roots).1 w = true := by
-  sorry
+    sourceFrameB s (cloneSel s w roots).1 w = true :=
+  cloneSel_sourceFrame s w roots ha.inv
 
 /-- tasks outside the source WBS only gain mirror entries that point to copies -/
 theorem C10_outside_frame (s : G) (w : Uid) (roots : List Uid) (ha : CloneArgs s w roots) :
-    outsideFrameB s (cloneSel s w roots).1 w = true := by
-  sorry
+    outsideFrameB s (cloneSel s w roots).1 w = true :=
+  cloneSel_outsideFrame s w roots ha.inv
 
 /-- on a reachable state the copy is never rejected -/
 theorem C10_accepted (s : G) (w : Uid) (roots : List Uid) (ha : CloneArgs s w roots) :
